@@ -805,6 +805,10 @@ def acceptance(case, calls, flat, stats):
             if c["ret"] != expect:
                 out.append({"prop": "C08", "rule": "accept_iff", "msg": "call %d %r returned %r, expected %r (service %r %s)"
                             % (ci, op, c["ret"], expect, ident, "outstanding" if expect else "not outstanding")})
+                # the identifier a service is announced with is the identifier its completion is accepted under - once
+                out.append({"prop": "C14", "rule": "announced_id_not_accepted" if expect else "id_accepted_again",
+                            "msg": "call %d %r: the completion of the service announced as %r returned %r (%s)"
+                            % (ci, op, ident, c["ret"], "it is outstanding" if expect else "it is not outstanding any more")})
             if c["ret"]:
                 pending.discard(ident)
         elif o == "junk":
